@@ -401,13 +401,12 @@ def r_dottable(idx, rep, rule="R-DOTTABLE"):
     """SimplexInfo.select_vertex / select_line_segment / select_face compact the simplex when the vertices (i, j, k) become rows (0, 1, 2): row r of
     points / indices_polytope1 / indices_polytope2 must hold what row P_r held, and entry [r, c] (r >= c) of the lower-triangular table of inner
     products must hold what entry [max(P_r, P_c), min(P_r, P_c)] held.  Decided by running each method — by interpretation of its syntax tree over
-    concrete indices and LABELLED cells (core/concrete.py) — for every ascending index tuple out of 0..3 (the sub-algorithm only selects in
-    ascending order), so helpers (`_dot_product(i, j)`), selectors written as conditional expressions, if statements or max/min, and local
+    concrete indices and LABELLED cells (core/concrete.py) — for every index tuple that occurs at a call site of the module, so helpers (`_dot_product(i, j)`), selectors written as conditional expressions, if statements or max/min, and local
     aliases of the table all give the same verdict; reads of the (unmaintained) upper triangle and reads after an in-place overwrite show up as
     a wrong label."""
     import itertools as _it
     from ..core.concrete import Interp as _CI, NotModelled as _NM
-    rep.rule(rule, "SimplexInfo.select_*: for every ascending selection out of 4 vertices, row r of the parallel containers receives row P_r and "
+    rep.rule(rule, "SimplexInfo.select_*: for every selection made at a call site (literal index tuples), row r of the parallel containers receives row P_r and "
                    "dot_product_table[r, c] (r >= c) receives the old [max(P_r, P_c), min(P_r, P_c)] — interpretation over concrete indices and labelled cells",
              floor=8)
     ci = idx.cls("distance3d.gjk._gjk_original::SimplexInfo")
@@ -415,7 +414,20 @@ def r_dottable(idx, rep, rule="R-DOTTABLE"):
         m = ci.methods.get(name)
         if m is None:
             raise AnalysisError("SimplexInfo.%s vanished" % name)
-        for sel in _it.combinations(range(4), k):
+        # the selections that the sub-algorithm really makes: the literal index tuples at the call sites of the module (they are not all ascending:
+        # select_face(0, 3, 2), select_line_segment(2, 1) ...); a call with a non-literal index is reported as not decided
+        sels = set()
+        for g_ in idx.module(O).functions.values():
+            for c_ in calls(g_.node):
+                if isinstance(c_.func, ast.Attribute) and c_.func.attr == name and g_.key != m.key:
+                    vals = [const(a_) for a_ in c_.args]
+                    if len(vals) == k and all(isinstance(v_, int) and not isinstance(v_, bool) for v_ in vals):
+                        sels.add(tuple(vals))
+                    else:
+                        rep.unknown(rule, "%s|call %s" % (m.key, u(c_)[:60]), "%s:%d" % (g_.module.relpath, c_.lineno), "selection with non-literal indices: not enumerated")
+        if not sels:
+            raise AnalysisError("SimplexInfo.%s is never called with literal indices" % name)
+        for sel in sorted(sels):
             it = _CI(ci)
             key0 = "%s|select%s" % (m.key, sel)
             try:
